@@ -203,6 +203,8 @@ package wkbcommon
 // documented coercions all end in that kind, every other mismatch is an error; nothing is reported
 // valid together with an error
 //@   ensures err != nil ==> !valid && geom == nil
+// a ring destination is filled only from a polygon with exactly one ring (return 18 of Scan)
+//@   return 18: len(p) == 1
 //@   ensures err == nil && valid && istype(g, *orb.Point) ==> istype(geom, orb.Point)
 //@   ensures err == nil && valid && istype(g, *orb.MultiPoint) ==> istype(geom, orb.MultiPoint)
 //@   ensures err == nil && valid && istype(g, *orb.LineString) ==> istype(geom, orb.LineString)
